@@ -13,6 +13,11 @@ use crate::{
 
 const STACK_LIMIT: usize = 32;
 
+/// How deeply expressions and statements may nest (parentheses, array
+/// subscripts, function arguments and bodies, `IF ... THEN IF ...`) before we
+/// report a stack overflow instead of exhausting the native stack.
+const MAX_NESTING_DEPTH: usize = 256;
+
 #[derive(Debug, Default, Copy, Clone, PartialEq)]
 pub enum ProgramLine {
     #[default]
@@ -100,6 +105,7 @@ pub struct Program {
     loop_stack: Vec<LoopInfo>,
     data_iterator: Option<DataIterator>,
     functions: HashMap<Symbol, FunctionDefinition>,
+    nesting_depth: usize,
     #[cfg(abasic_verif)]
     verif_token_reads: std::cell::Cell<u64>,
 }
@@ -254,6 +260,22 @@ impl Program {
 
         variables.set(symbol, new_value.into())?;
         Ok(())
+    }
+
+    /// The evaluator and the analyzer are recursive-descent, so every nested
+    /// expression or statement costs native stack. Call this when entering one
+    /// (and `leave_nested_evaluation` when leaving it) so that pathological
+    /// nesting becomes an error rather than a crash.
+    pub fn enter_nested_evaluation(&mut self) -> Result<(), TracedInterpreterError> {
+        if self.nesting_depth >= MAX_NESTING_DEPTH {
+            return Err(OutOfMemoryError::StackOverflow.into());
+        }
+        self.nesting_depth += 1;
+        Ok(())
+    }
+
+    pub fn leave_nested_evaluation(&mut self) {
+        self.nesting_depth -= 1;
     }
 
     pub fn has_line_number(&self, line_number: u64) -> bool {
